@@ -74,6 +74,7 @@ type Parser struct {
 	chunked      bool
 	isClient     bool
 	noBody       bool
+	chunkExt     bool
 	headerExists bool
 }
 
@@ -516,7 +517,7 @@ UPGRADER:
 			return ErrInvalidChunkSize
 		case stateBodyChunkSize:
 			switch c {
-			case ' ':
+			case ' ', '\t':
 				if p.chunkSize < 0 {
 					chunkSize, err := parseAndValidateChunkSize(string(data[start:i]))
 					if err != nil {
@@ -524,6 +525,15 @@ UPGRADER:
 					}
 					p.chunkSize = chunkSize
 				}
+			case ';':
+				if p.chunkSize < 0 {
+					chunkSize, err := parseAndValidateChunkSize(string(data[start:i]))
+					if err != nil {
+						return err
+					}
+					p.chunkSize = chunkSize
+				}
+				p.chunkExt = true
 			case '\r':
 				if p.chunkSize < 0 {
 					chunkSize, err := parseAndValidateChunkSize(string(data[start:i]))
@@ -532,15 +542,14 @@ UPGRADER:
 					}
 					p.chunkSize = chunkSize
 				}
+				p.chunkExt = false
 				start = i + 1
 				p.nextState(stateBodyChunkSizeLF)
 			default:
-				if !isHex(c) && p.chunkSize < 0 {
-					chunkSize, err := parseAndValidateChunkSize(string(data[start:i]))
-					if err != nil {
-						return err
-					}
-					p.chunkSize = chunkSize
+				// only hex digits make up the size, and only blanks may
+				// follow it before the extension or the end of the line.
+				if !p.chunkExt && (!isHex(c) || p.chunkSize >= 0) {
+					return ErrInvalidChunkSize
 				}
 			}
 		case stateBodyChunkSizeLF:
